@@ -10,7 +10,7 @@
    merge when either branch defines x (the use then sees a phi), and dropped at
    a loop head when the body defines x (loop-carried phi).
 
-     cp guard_src fix_for     the pass;  cp false false = AS CODED:
+     cp guard_src fix_for     the pass;  cp false true = AS CODED (cp false false before 1bc6253):
         guard_src = false     an equality x = y survives a redefinition of the
                               SOURCE y (the use site is substituted although y
                               changed: the known defect);  true = the repair
@@ -156,7 +156,9 @@ Definition cp_block : facts -> block -> block * facts :=
 Definition cp (fn : func) : block := fst (cp_block [] (f_body fn)).
 End CP.
 
-Definition copyprop_as_coded : func -> block := cp false false.
+(* AS CODED now: the for-target repair (1bc6253) is in /repo, the source guard is not *)
+Definition copyprop_as_coded : func -> block := cp false true.
+Definition copyprop_unrepaired : func -> block := cp false false.
 Definition copyprop_fixed : func -> block := cp true true.
 
 (* ---------------------------------------------------------------- the validator *)
